@@ -17,6 +17,22 @@ THEOREMS = [
     "Cv.C04.revertPathM_spec",
     "Cv.C04.findPathFrom_spec",
     "Cv.C04.findPathFrom_valid",
+    "Cv.C04e.encoded_pathHyp",
+    "Cv.C04e.encoded_pathHyp_restrict",
+    "Cv.C04e.inverted_flag_eq",
+    "Cv.C04e.encoded_ball",
+    "Cv.C04e.encoded_ball_math",
+    "Cv.C04e.encoded_findPathTo_spec",
+    "Cv.C04e.encoded_findPathFrom_spec",
+    "Cv.C04e.encoded_revertPath_spec",
+    "Cv.C04e.plain_pathHyp",
+    "Cv.C04e.plain_ball",
+    "Cv.C04e.plain_findPathTo_spec",
+    "Cv.C04e.plain_findPathFrom_spec",
+    "Cv.C04e.encoded_ball_single_word",
+    "Cv.C04e.encoded_findPathTo_single_word",
+    "Cv.C04e.encoded_findPathFrom_single_word",
+    "Cv.C04e.encoded1d_findPathTo_eq",
 ]
 
 
@@ -151,7 +167,7 @@ def main():
         body = json.load(open(os.path.join(VERIF, ck.replay) if not os.path.isabs(ck.replay) else ck.replay))
         ck.guard(run_case, ck, body["case"])
         ck.finish(rule="replay of one recorded case")
-    ck.lean_obligations("CvProps.C04", THEOREMS)
+    ck.lean_obligations(["CvProps.C04", "CvProps.C04e"], THEOREMS)
     for case in json.load(open(os.path.join(VERIF, "harness", "corpus", "C04.json"))):
         ck.guard(run_case, ck, case)
         ck.count("corpus")
